@@ -4,6 +4,7 @@
 # Writes <worktree>/_out/<k>/confirm.json
 W=$1; K=$2; D=$W/_out/$K
 cd $W || exit 2
+[ -f $D/patch.diff ] || exit 2
 export CARGO_NET_OFFLINE=true
 git checkout -q -- src 2>/dev/null
 rm -f tests/demo_*.rs
